@@ -70,6 +70,7 @@ FD_H = 2.5e-4
 TOPOLOGIES = ["((A:0.1,B:0.1):0.1,C:0.1,D:0.1);", "((A:0.1,C:0.1):0.1,B:0.1,D:0.1);", "((A:0.1,D:0.1):0.1,B:0.1,C:0.1);"]
 TAXA = ["A", "B", "C", "D"]
 PHYLO_MODELS = {"JC69": [5], "HKY_kappa": [5, 1], "HKY_freqs": [5, 3]}
+PHYLO_HYPER = {"pb.rate": [10.0], "kappa": [2.5], "freqs": [0.3, 0.2, 0.15, 0.35]}
 
 
 # ----------------------------------------------------------------------------- generation
@@ -117,11 +118,14 @@ def _block(draw, kind, n):
         return {"kind": kind, "n": n, "loc": [draw(fl(-3.0, 3.0)) for _ in range(n)], "scale": [draw(logu(0.2, 5.0)) for _ in range(n)]}
     if kind == "gamma":
         return {"kind": kind, "n": n, "conc": [draw(logu(0.3, 8.0)) for _ in range(n)], "rate": [draw(logu(0.2, 5.0)) for _ in range(n)]}
+    if kind == "gamma_raw":
+        # concentration > 1: the density vanishes at 0 (mode inside the support)
+        return {"kind": kind, "n": n, "conc": [draw(logu(1.5, 8.0)) for _ in range(n)], "rate": [draw(logu(0.5, 5.0)) for _ in range(n)]}
     return {"kind": "mvn", "n": n, "loc": [draw(fl(-3.0, 3.0)) for _ in range(n)], "prec": _spd(draw, n, 0.1, 10.0, 0.05)}
 
 
 @st.composite
-def cases(draw, targets=("block", "block", "mvn", "phylo"), max_L=30, phylo_max_L=30, eps_lo=1e-3, masses=("identity", "identity_dense", "diag", "diag", "dense", "dense"), operator=False, harsh=False):
+def cases(draw, targets=("block", "block", "mvn", "phylo"), max_L=30, phylo_max_L=30, eps_lo=1e-3, masses=("identity", "identity_dense", "diag", "diag", "dense", "dense"), operator=False, harsh=False, raw=False, update=False):
     target = draw(st.sampled_from(list(targets)))
     c = {"target": target}
     # the knobs first, the bulk of the numbers afterwards (late draws of a long example are the
@@ -157,10 +161,18 @@ def cases(draw, targets=("block", "block", "mvn", "phylo"), max_L=30, phylo_max_
         else:
             blocks, q0 = [], []
             for n in sizes:
-                kind = "gamma" if harsh else draw(st.sampled_from(["normal", "gamma", "gamma", "mvn"]))
+                if harsh:
+                    kind = "gamma"
+                elif raw:
+                    # gamma densities on untransformed positive parameters: a trajectory that steps out of
+                    # the support makes the density raise, the operator retries with a new momentum
+                    kind = draw(st.sampled_from(["gamma_raw", "gamma_raw", "normal"])) if len(blocks) else "gamma_raw"
+                else:
+                    kind = draw(st.sampled_from(["normal", "gamma", "gamma", "mvn", "gamma_raw"]))
                 blocks.append(_block(draw, kind, n))
                 # harsh: start far in the tail of exp(x), where large steps overflow (numerical failure path)
-                q0 += [draw(fl(2.0, 7.0) if harsh else (fl(-2.0, 2.0) if kind == "gamma" else fl(-3.0, 3.0))) for _ in range(n)]
+                rng = fl(2.0, 7.0) if harsh else {"gamma": fl(-2.0, 2.0), "gamma_raw": fl(0.2, 1.5) if raw else fl(0.3, 3.0)}.get(kind, fl(-3.0, 3.0))
+                q0 += [draw(rng) for _ in range(n)]
             c["blocks"] = blocks
     d = sum(sizes)
     c["sizes"] = sizes
@@ -168,7 +180,25 @@ def cases(draw, targets=("block", "block", "mvn", "phylo"), max_L=30, phylo_max_
     c["eps"] = eps
     c["L"] = L
     c["mass"] = _mass(draw, d, mass_kind)
+    if update:
+        # a second set of values for every OTHER parameter of the target (same structure): what another
+        # operator of a Metropolis-within-Gibbs chain would change between two HMC moves
+        if target == "phylo":
+            h2 = {"pb.rate": [draw(fl(3.0, 30.0))]}
+            if c["model"] == "HKY_freqs":
+                h2["kappa"] = [draw(fl(1.5, 6.0))]
+            elif c["model"] == "HKY_kappa":
+                r = draw(fl(0.1, 0.4))
+                r = 1.0 - r if draw(st.booleans()) else r  # pi_A + pi_G, away from 1/2
+                u, v = draw(fl(0.2, 0.8)), draw(fl(0.2, 0.8))
+                h2["freqs"] = [r * u, (1.0 - r) * v, r * (1.0 - u), (1.0 - r) * (1.0 - v)]
+            c["hyper2"] = h2
+        else:
+            c["blocks2"] = [_block(draw, b["kind"], b["n"]) for b in c["blocks"]]
+        c["update_at"] = draw(st.sampled_from([0, 0, 1]))
     if not operator:
+        if update:
+            c["p1"] = [draw(fl(-3.0, 3.0)) for _ in range(d)]
         c["p0"] = [draw(fl(-3.0, 3.0)) for _ in range(d)]
     return c
 
@@ -183,6 +213,8 @@ def target_spec(c):
         vals.append(q0[s : s + n])
         s += n
     if c["target"] == "phylo":
+        hyper = dict(PHYLO_HYPER)
+        hyper.update(c.get("hyper", {}))
         ids = ["tree.blens.unres"] + ({"JC69": [], "HKY_kappa": ["kappa.unres"], "HKY_freqs": ["freqs.unres"]}[c["model"]])
         blens = {"id": "tree.blens", "type": "TransformedParameter", "transform": "torch.distributions.ExpTransform", "x": tt.P(ids[0], vals[0])}
         dists, jac = [], ["tree.blens"]
@@ -191,11 +223,11 @@ def target_spec(c):
         else:
             if c["model"] == "HKY_kappa":
                 kappa = {"id": "kappa", "type": "TransformedParameter", "transform": "torch.distributions.ExpTransform", "x": tt.P(ids[1], vals[1])}
-                freqs = tt.P("freqs", [0.3, 0.2, 0.15, 0.35])
+                freqs = tt.P("freqs", hyper["freqs"])
                 dists.append({"id": "pk", "type": "Distribution", "distribution": "torch.distributions.LogNormal", "x": "kappa", "parameters": {"loc": 1.0, "scale": 1.25}})
                 jac.append("kappa")
             else:
-                kappa = tt.P("kappa", [2.5])
+                kappa = tt.P("kappa", hyper["kappa"])
                 freqs = {"id": "freqs", "type": "TransformedParameter", "transform": "torch.distributions.StickBreakingTransform", "x": tt.P(ids[1], vals[1])}
                 dists.append({"id": "pf", "type": "Distribution", "distribution": "torch.distributions.Dirichlet", "x": "freqs", "parameters": {"concentration": [1.0, 1.0, 1.0, 1.0]}})
                 jac.append("freqs")
@@ -208,7 +240,7 @@ def target_spec(c):
             "substitution_model": subst,
             "site_pattern": {"id": "patterns", "type": "SitePattern", "alignment": "alignment"},
         }
-        prior_b = {"id": "pb", "type": "Distribution", "distribution": "torch.distributions.Exponential", "x": "tree.blens", "parameters": {"rate": 10.0}}
+        prior_b = {"id": "pb", "type": "Distribution", "distribution": "torch.distributions.Exponential", "x": "tree.blens", "parameters": {"rate": tt.P("pb.rate", hyper["pb.rate"])}}
         return (
             [
                 {"id": "taxa", "type": "Taxa", "taxa": [{"id": t, "type": "Taxon"} for t in TAXA]},
@@ -228,6 +260,8 @@ def target_spec(c):
             x = tt.P(ids[i], v)
             if b["kind"] == "normal":
                 dists.append({"id": "d%d" % i, "type": "Distribution", "distribution": "torch.distributions.Normal", "x": x, "parameters": {"loc": tt.P("d%d.loc" % i, b["loc"]), "scale": tt.P("d%d.scale" % i, b["scale"])}})
+            elif b["kind"] == "gamma_raw":
+                dists.append({"id": "d%d" % i, "type": "Distribution", "distribution": "torch.distributions.Gamma", "x": x, "parameters": {"concentration": tt.P("d%d.conc" % i, b["conc"]), "rate": tt.P("d%d.rate" % i, b["rate"])}})
             elif b["kind"] == "gamma":
                 z = {"id": "z%d" % i, "type": "TransformedParameter", "transform": "torch.distributions.ExpTransform", "x": x}
                 dists.append({"id": "d%d" % i, "type": "Distribution", "distribution": "torch.distributions.Gamma", "x": z, "parameters": {"concentration": tt.P("d%d.conc" % i, b["conc"]), "rate": tt.P("d%d.rate" % i, b["rate"])}})
@@ -253,6 +287,20 @@ class Built:
         for p, n in zip(self.params, self.sizes):
             p.tensor = torch.tensor(np.asarray(q[s : s + n], dtype=float).tolist(), dtype=torch.get_default_dtype())
             s += n
+
+    def set_hyper(self, c):
+        """assign the values of c to every parameter of the target other than the positions, through
+        the public interface (Parameter.tensor = ...), leaving the positions untouched"""
+        if c["target"] == "phylo":
+            hyper = dict(PHYLO_HYPER)
+            hyper.update(c.get("hyper", {}))
+            for k in ["pb.rate"] + {"HKY_freqs": ["kappa"], "HKY_kappa": ["freqs"]}.get(c["model"], []):
+                self.dic[k].tensor = tt.T(hyper[k])
+            return
+        for i, b in enumerate(c["blocks"]):
+            for field, name in (("loc", "loc"), ("scale", "scale"), ("conc", "conc"), ("rate", "rate"), ("prec", "prec")):
+                if field in b:
+                    self.dic["d%d.%s" % (i, name)].tensor = tt.T(b[field])
 
     def get_q(self):
         """concatenation of the parameters as the caller of the integrator sees them; None if a shape is wrong"""
@@ -335,6 +383,16 @@ class Oracle:
                 pi = np.concatenate([z, [1.0]]) * rem
                 m = min(m, abs(float(pi[0] + pi[2] - 0.5)))
         return m
+
+
+def updated(c):
+    """the case with the second set of values for the other parameters of the target"""
+    c2 = dict(c)
+    if c["target"] == "phylo":
+        c2["hyper"] = c["hyper2"]
+    else:
+        c2["blocks"] = c["blocks2"]
+    return c2
 
 
 def mass_np(c):
@@ -444,6 +502,68 @@ def body_differential(c):
 
 def body_reversal(c):
     return body_trajectory(c, "reversal")
+
+
+# ----------------------------------------------------------------------------- (a)+(b) on one integrator instance
+def body_sequence(c):
+    """Metropolis-within-Gibbs use of ONE integrator instance: a trajectory is kept (accepted), other parameters
+    of the target are changed through the public interface, the next trajectory starts from the position the
+    parameters hold. Every trajectory must be the leapfrog trajectory of the CURRENT target, and reversible."""
+    res = _base(c, "sequence")
+    M = mass_np(c)
+    minv = lf.invert_mass(M)
+    minv_t = tt.T(minv.tolist())
+    eps, L = c["eps"], c["L"]
+    q0 = np.asarray(c["q0"], dtype=float)
+    moms = [np.asarray(c["p0"], dtype=float), np.asarray(c["p1"], dtype=float), -np.asarray(c["p0"], dtype=float)]
+    cA, cB = c, updated(c)
+    b = Built(cA)
+    integ = build_integrator(eps, L)
+    b.set_q(q0)
+    q_cur, cur = q0, cA
+    for leg in range(3):
+        if leg == 1 + c["update_at"]:
+            b.set_hyper(cB)  # positions untouched
+            cur = cB
+            changed = maxabs(Oracle(cA).grad(q_cur), Oracle(cB).grad(q_cur)) > 1e-6
+        orc = Oracle(cur)
+        p = moms[leg]
+        ref, amp, why = _reference(cur, orc, q_cur, p, eps, L, minv)
+        if why:
+            _lab(res, why)
+            return res
+        S = ref["scale"]
+        if leg == 1 + c["update_at"]:
+            back, amp2, why = _reference(cur, orc, ref["q"], -ref["p"], eps, L, minv)
+            if why:
+                _lab(res, why)
+                return res
+            S = max(S, back["scale"])
+        # the integrator is applied to the parameters as the previous trajectory left them
+        p1 = arr(integ(b.joint, b.params, torch.tensor(p.tolist()), minv_t))
+        q1 = b.get_q()
+        if q1 is None:
+            return res.fail("shape", {"sizes": c["sizes"], "leg": leg})
+        err = max(maxabs(q1, ref["q"]), maxabs(p1, ref["p"]))
+        if not err <= 1e-10 * S:
+            res.fail("mismatch", {"leg": leg, "updated": cur is cB, "err": err, "scale": S, "q": q1.tolist(), "q_ref": ref["q"].tolist(), "p": p1.tolist(), "p_ref": ref["p"].tolist()})
+        if leg == 1 + c["update_at"]:
+            # reversal of the first trajectory under the changed target; the chain then continues from
+            # the point it came back to
+            p2 = arr(integ(b.joint, b.params, torch.tensor((-p1).tolist()), minv_t))
+            q2 = b.get_q()
+            if q2 is None:
+                return res.fail("shape", {"sizes": c["sizes"], "leg": leg})
+            err = max(maxabs(q2, q_cur), maxabs(p2, -p))
+            if not err <= 1e-9 * L * S:
+                res.fail("irreversible", {"leg": leg, "err": err, "scale": S})
+            q1 = q2
+        if res.fails:
+            return res
+        q_cur = q1
+    res.nontrivial = bool(changed) and float(np.max(np.abs(q_cur - q0))) > 1e-6
+    _lab(res, "update_before_leg=%d" % (1 + c["update_at"]))
+    return res
 
 
 # ----------------------------------------------------------------------------- (c)
@@ -674,7 +794,8 @@ def body_operator(c):
     q_cur = np.asarray(c["q0"], dtype=float)
     lp_cur = orc.logp(q_cur)
     nsteps = 0
-    for decision in list(c["decisions"]) + ["end"]:
+    cur = c
+    for idx, decision in enumerate(list(c["decisions"]) + ["end"]):
         with torch.no_grad():
             lp0 = float(b.joint())  # what MCMC.run holds as the current log density
         if not abs(lp0 - lp_cur) <= 1e-10 * max(1.0, abs(lp_cur)):
@@ -688,7 +809,7 @@ def body_operator(c):
             # the momentum is drawn inside step(): whether this trajectory is one the property speaks about is
             # only known afterwards. A raise is a failure unless the exact trajectory for the momentum that was
             # being integrated leaves the guarded region (divergence: overflow, non-finite rate matrix, ...)
-            if att and att[-1][0].shape == (d,) and _reference(c, orc, q_cur, att[-1][0], eps, L, minv)[2] is not None:
+            if att and att[-1][0].shape == (d,) and _reference(cur, orc, q_cur, att[-1][0], eps, L, minv)[2] is not None:
                 _lab(res, "raised_outside_guard:" + type(exc).__name__)
                 return res
             raise exc
@@ -701,13 +822,13 @@ def body_operator(c):
         # abandoned attempts (numerical failure, new momentum drawn): legitimate only where the exact
         # trajectory for that momentum is itself outside the guarded region
         for p0, _ in att[:-1]:
-            _, _, why = _reference(c, orc, q_cur, p0, eps, L, minv)
+            _, _, why = _reference(cur, orc, q_cur, p0, eps, L, minv)
             if why is None:
                 return res.fail("retries", {"draws": len(att), "abandoned_momentum": p0.tolist()})
         if len(att) > 1:
             _lab(res, "retried")
         p0, p1 = att[-1]
-        ref, amp, why = _reference(c, orc, q_cur, p0, eps, L, minv)
+        ref, amp, why = _reference(cur, orc, q_cur, p0, eps, L, minv)
         if hv == float("inf"):
             # K0 - K1 cannot be +inf: this is the operator's signal that every attempt failed numerically;
             # MCMC.run accepts on +inf, so the position must be exactly the one before the step
@@ -758,6 +879,16 @@ def body_operator(c):
             qb = b.get_q()
             if qb is None or not np.array_equal(qb, q_cur):
                 return res.fail("restore", {"q": None if qb is None else qb.tolist(), "expected": q_cur.tolist()})
+        if c.get("update_at") == idx and decision != "end":
+            # another operator of the chain changes the other parameters of the target; positions untouched
+            cur = updated(c)
+            b.set_hyper(cur)
+            orc = Oracle(cur)
+            lp_cur = orc.logp(q_cur)
+            if not math.isfinite(lp_cur):
+                _lab(res, "guard:unstable")
+                return res
+            _lab(res, "updated_after=" + decision)
     _lab(res, "history=" + ",".join(c["decisions"]))
     return res
 
@@ -887,5 +1018,9 @@ def subchecks(tier):
         Sub("operator", body_operator, strategy=lambda: cases(targets=toy, operator=True), quick=400, thorough=20000, pretags=pretags),
         Sub("operator_phylo", body_operator, strategy=lambda: cases(targets=ph, phylo_max_L=20, operator=True), quick=24, thorough=600, pretags=pretags),
         Sub("operator_failure", body_operator, strategy=lambda: cases(targets=("block",), operator=True, harsh=True, eps_lo=0.1), quick=60, thorough=3000, pretags=pretags),
+        Sub("operator_retry", body_operator, strategy=lambda: cases(targets=("block",), operator=True, raw=True, eps_lo=0.1, max_L=10), quick=160, thorough=6000, pretags=pretags),
+        Sub("operator_gibbs", body_operator, strategy=lambda: cases(targets=toy, operator=True, update=True), quick=160, thorough=6000, pretags=pretags),
+        Sub("sequence", body_sequence, strategy=lambda: cases(targets=toy, update=True), quick=200, thorough=8000, pretags=pretags),
+        Sub("sequence_phylo", body_sequence, strategy=lambda: cases(targets=ph, phylo_max_L=12, update=True), quick=16, thorough=400, pretags=pretags),
         Sub("hamiltonian", body_hamiltonian, strategy=ham_cases, quick=200, thorough=8000, pretags=ham_pretags),
     ]
